@@ -117,6 +117,17 @@ P = {
         "components": comp(real=["services ssh-simulator (real x/crypto/ssh server handshake), ldap, ftp"], stub=["x/crypto/ssh client library as the peer, running inside the bubble over simnet"]),
         "assumptions": ["LDAP anonymous bind (empty DN and password) is answered with success and leaves the connection not logged in; its result code is not judged", "FTP PASS without parameter is a syntax error, not an attempt"],
     },
+    "C13": {
+        "runs": {"quick": 64, "thorough": 4000},
+        "budget_s": {"quick": 280, "thorough": 3300},
+        "min_per_worker": 2,
+        "rule": "one scenario = one https server receiving 60 (thorough: 200) structurally generated ClientHellos (legacy version SSL3..TLS1.2, 1-40 suites incl. GREASE and SCSV, 0-20 extensions incl. unknown, repeated, GREASE and empty-bodied types, supported-groups with GREASE, 0-3 point formats, one of three server names or none; 15% are GREASE-only variants of an earlier hello) on separate connections, a few interleaved at a time, each under record-layer fragmentation x stream segmentation and followed by close / reset / reading the server flight; evaluations counts hellos; distinct = distinct trace digest; non-trivial = always (every scenario carries fragmentation and GREASE variants)",
+        "components": comp(real=["services https + vendored services/ja3/crypto/tls (record layer, handshake reassembly, clientHello parser, JA3)"]),
+        "assumptions": ["the JA3 reference is computed from the generated structure, not from the bytes", "duplicated types are never the two whose bodies JA3 reads"],
+        "stall_s": 240,
+        "single_timeout": 900,
+        "min_budget": 40,
+    },
 }
 
 def get(prop):
